@@ -35,29 +35,29 @@ type JobConfig struct {
 }
 
 type JobResult struct {
-	Harness      string                 `json:"harness"`
-	Shape        []int                  `json:"shape"`
-	Paths        int                    `json:"paths"`
-	Ends         map[string]int         `json:"path_ends"`
-	Branches     int                    `json:"branch_decisions"`
-	Queries      int                    `json:"queries"`
-	SolverTimeS  float64                `json:"solver_time_s"`
-	Unknown      int                    `json:"unknown"`
-	SolverErrors int                    `json:"solver_errors"`
-	Asserts      map[string]int         `json:"assert_instances"`
-	Failing      map[string]int         `json:"failing_instances"`
-	Reach        map[string]int         `json:"reach"`
-	Candidates   []Candidate            `json:"-"`
-	Inconclusive map[string]int         `json:"inconclusive"`
-	Unsupported  map[string]int         `json:"unsupported"`
-	Panics       map[string]int         `json:"panics"`
-	Functions    map[string]bool        `json:"-"`
-	Stubs        map[string]bool        `json:"-"`
-	Truncated    bool                   `json:"truncated"`
-	WallS        float64                `json:"wall_s"`
+	Harness      string                   `json:"harness"`
+	Shape        []int                    `json:"shape"`
+	Paths        int                      `json:"paths"`
+	Ends         map[string]int           `json:"path_ends"`
+	Branches     int                      `json:"branch_decisions"`
+	Queries      int                      `json:"queries"`
+	SolverTimeS  float64                  `json:"solver_time_s"`
+	Unknown      int                      `json:"unknown"`
+	SolverErrors int                      `json:"solver_errors"`
+	Asserts      map[string]int           `json:"assert_instances"`
+	Failing      map[string]int           `json:"failing_instances"`
+	Reach        map[string]int           `json:"reach"`
+	Candidates   []Candidate              `json:"-"`
+	Inconclusive map[string]int           `json:"inconclusive"`
+	Unsupported  map[string]int           `json:"unsupported"`
+	Panics       map[string]int           `json:"panics"`
+	Functions    map[string]bool          `json:"-"`
+	Stubs        map[string]bool          `json:"-"`
+	Truncated    bool                     `json:"truncated"`
+	WallS        float64                  `json:"wall_s"`
 	SampleModels []map[string]interface{} `json:"-"`
-	GoStmts      int                    `json:"go_statements_skipped"`
-	Journal      []string               `json:"-"`
+	GoStmts      int                      `json:"go_statements_skipped"`
+	Journal      []string                 `json:"-"`
 }
 
 type Job struct {
@@ -65,13 +65,13 @@ type Job struct {
 	prog *Program
 	fn   *ssa.Function
 
-	mu       sync.Mutex
-	work     [][]Decision
-	active   int
-	cond     *sync.Cond
-	res      *JobResult
-	candPer  map[string]int
-	stop     bool
+	mu      sync.Mutex
+	work    [][]Decision
+	active  int
+	cond    *sync.Cond
+	res     *JobResult
+	candPer map[string]int
+	stop    bool
 }
 
 func (j *Job) push(prefix []Decision) {
